@@ -189,6 +189,18 @@ def bmc_run(pid, run, work, log):
     r4 = sh(['g++', real_exe + '.k.o', real_exe + '.l.o', '-o', real_exe])
     for rr in (r1, r2, r3, r4):
         if rr.returncode != 0: raise RuntimeError('native build of kernel/laws failed:\n' + rr.stderr[-1500:])
+    refsrc = ksrc[:-4] + '_ref.cpp'
+    if os.path.exists(refsrc):
+        # representation check: a kernel that builds private state by hand is compared with the public-API path; on disagreement the kernel
+        # does not represent the code on this tree and nothing is judged on it (fail closed, never a VIOLATION)
+        rr = sh(['g++', '-std=' + run.std, '-O1', '-w', '-I' + REPO + '/include', refsrc, real_exe + '.k.o', '-o', real_exe + '.ref', '-lpthread'])
+        rc = sh([real_exe + '.ref']) if rr.returncode == 0 else rr
+        if rr.returncode != 0 or rc.returncode != 0:
+            res['notes'] = ['E-BMC-CROSS-CHECK-SKIPPED: %s builds private state by hand and disagrees with the public-API path on this tree (%s): the kernel does not represent the code here, so the CBMC cross-check is not applied; the property is decided by the E-sym runs alone' % (run.harness, (rc.stdout + rc.stderr)[-300:].strip())]
+            res['tot'] = {'paths': 0, 'steps': 0, 'forks': 0, 'queries': 0, 'qtime': 0, 'wall': time.time() - t0, 'nviol': 0, 'cover_wit': {}, 'samples': [], 'fcalls': {}, 'inconclusive': [],
+                          'max_steps_seen': 0, 'ended': 0, 'pruned': 0, 'sched_points': 0, 'max_threads': 1, 'cache_hits': 0, 'deadlocks': 0, 'violations': []}
+            return res
+        res['validated'] += 1
     d1 = sh([gen_exe, '--difftest']).stdout.strip(); d2 = sh([real_exe, '--difftest']).stdout.strip()
     if d1 != d2 or not d1: res['problems'].append('ENGINE-MISMATCH: generated C and the real functions disagree in the differential test (%s vs %s)' % (d1, d2))
     else: res['validated'] += 1
@@ -392,6 +404,8 @@ def main():
                 exitcode = 1
             else:
                 r['problems'].append('ENGINE-MISMATCH: candidate violation not reproduced natively: %s (replay %s)' % (rec['replay']['violation']['msg'], p))
+    notes = [n for r in results for n in r.get('notes', [])]
+    for n in notes: print('NOTE: ' + n[:600])
     problems = fatal + [p for r in results for p in r['problems']]
     if problems and exitcode == 0: exitcode = 2
     for p in problems: print('PROBLEM: ' + p[:1200])
@@ -432,6 +446,7 @@ def write_evidence(pid, tier, seed, spec, runs, results, problems, nviol, wall):
         'support_tu_selftest': SUPPORT_SELFTEST,
         'outside_the_bounds': spec.outside,
         'problems': problems,
+        'notes': [n for r in results for n in r.get('notes', [])],
     }
     ev = {'property_id': pid, 'tier': tier, 'seed': seed, 'level': 'model_checking', 'coverage': cov,
           'assumptions': spec.assumptions + props.COMMON_ASSUMPTIONS, 'wall_s': round(wall, 2), 'violations': nviol}
